@@ -220,7 +220,7 @@ def install():
         w = statement.split()[0].upper()
         if w in ('INSERT', 'UPDATE', 'DELETE', 'VACUUM') or w == 'COMMIT':
             if PAYLOAD:
-                gate('sql', w, statement[:60], _params(parameters))
+                gate('sql', w, statement[:400], _params(parameters))
             else:
                 gate('sql', w)
         elif w == 'SELECT' and (OBSERVE_READS or SCHED is not None):
